@@ -32,6 +32,7 @@ def _prefix_sums(xs):
 
 
 MODELS: dict[str, Callable] = {
+    "warnings.warn": lambda *a, **k: None,
     "np.array": lambda x, *a, **k: list(x) if isinstance(x, (list, tuple)) else x,
     "np.cumsum": lambda x, *a, **k: _prefix_sums(x),
     "np.asarray": lambda x, *a, **k: list(x) if isinstance(x, (list, tuple)) else x,
@@ -68,6 +69,10 @@ class AbstractClass:
         self.log: list[str] = []
         self._len = self._make_len()
         self._consts: dict = {}
+        self.delegates: dict[str, "AbstractClass"] = {}   # Obj.cls -> the abstract class that interprets method calls / properties on such objects
+
+    def _is_me(self, obj) -> bool:
+        return isinstance(obj, Obj) and obj.cls in ("self", self.cls.name)
 
     def _method(self, name: str):
         for q in self.index.mro(self.cls):
@@ -80,7 +85,7 @@ class AbstractClass:
         def call_hook(ev, node, env):
             d = dotted_of(node.func) or ""
             if d in self.models:
-                args = [ev.ev(a.value, env) if isinstance(a, ast.Starred) else ev.ev(a, env) for a in node.args]
+                args = ev._elts(node.args, env)   # starred arguments are expanded
                 kwargs = {k.arg: ev.ev(k.value, env) for k in node.keywords if k.arg}
                 try:
                     return self.models[d](*args, **kwargs)
@@ -91,12 +96,18 @@ class AbstractClass:
             if d == "len" and len(node.args) == 1:
                 v = ev.ev(node.args[0], env)
                 if isinstance(v, Obj):
-                    if v is env.get("self") or v.cls == "self":
+                    if v is env.get("self") or self._is_me(v):
                         return self.call(v, "__len__", [])
                     if self.len_of is not None:
                         return self.len_of(v)
                     raise Unknown("len of an abstract object")
                 return len(v)
+            # calls of the class's own static / class methods by the class name: `Namespace.helper(...)`
+            if isinstance(node.func, ast.Attribute) and isinstance(node.func.value, ast.Name) and node.func.value.id == self.cls.name and node.func.value.id not in env \
+                    and self._method(node.func.attr) is not None:
+                args = [ev.ev(a, env) for a in node.args]
+                kwargs = {k.arg: ev.ev(k.value, env) for k in node.keywords if k.arg}
+                return self.call(None, node.func.attr, args, kwargs)
             # array methods on modelled lists
             if isinstance(node.func, ast.Attribute) and node.func.attr in METHOD_MODELS:
                 recv = ev.ev(node.func.value, env)
@@ -105,13 +116,20 @@ class AbstractClass:
             # self.method(args)
             if isinstance(node.func, ast.Attribute):
                 recv = ev.ev(node.func.value, env)
-                if isinstance(recv, Obj) and recv.cls == "self" and self._method(node.func.attr) is not None:
+                if isinstance(recv, Obj) and self._is_me(recv) and self._method(node.func.attr) is not None:
                     args = [ev.ev(a, env) for a in node.args]
-                    return self.call(recv, node.func.attr, args)
+                    kwargs = {k.arg: ev.ev(k.value, env) for k in node.keywords if k.arg}
+                    return self.call(recv, node.func.attr, args, kwargs)
+                if isinstance(recv, Obj) and recv.cls in self.delegates:
+                    args = [ev.ev(a, env) for a in node.args]
+                    kwargs = {k.arg: ev.ev(k.value, env) for k in node.keywords if k.arg}
+                    return self.delegates[recv.cls].call(recv, node.func.attr, args, kwargs)
             return NotImplemented
 
         def getattr_hook(obj, attr):
-            if obj.cls == "self":
+            if obj.cls in self.delegates and not self._is_me(obj):
+                return self.delegates[obj.cls]._hooks()["__getattr__"](obj, attr)
+            if self._is_me(obj):
                 m = self._method(attr)
                 if m is not None:
                     kinds = [d.name.rsplit(".", 1)[-1] for d in m.decorators]
@@ -155,7 +173,7 @@ class AbstractClass:
         @safe
         def _len(v):
             if isinstance(v, Obj):
-                if v.cls == "self":
+                if self._is_me(v):
                     return self.call(v, "__len__", [])
                 if self.len_of is not None:
                     return self.len_of(v)
@@ -163,7 +181,7 @@ class AbstractClass:
             return len(v)
         return _len
 
-    def call(self, self_obj: Obj, name: str, args: list) -> Any:
+    def call(self, self_obj: Obj, name: str, args: list, kwargs: dict | None = None) -> Any:
         m = self._method(name)
         if m is None:
             raise Unknown(f"no method {name}")
@@ -175,18 +193,23 @@ class AbstractClass:
         try:
             params = m.params()
             kinds = [d.name.rsplit(".", 1)[-1] for d in m.decorators]
-            if "staticmethod" in kinds:
-                env = {"len": self._len}
-                for p, v in zip(params, args):
-                    env[p] = v
-            else:
-                env = {params[0]: self_obj, "len": self._len}
-                for p in params[1:]:
-                    d_ = m.param_default(p)
-                    if d_ is not None:
-                        env[p] = Evaluator(self._hooks()).ev(d_, {})
-                for p, v in zip(params[1:], args):
-                    env[p] = v
+            env = {"len": self._len}
+            own = params if "staticmethod" in kinds else params[1:]
+            if "staticmethod" not in kinds:
+                env[params[0]] = self_obj
+            for p in own:
+                d_ = m.param_default(p)
+                if d_ is not None:
+                    env[p] = Evaluator(self._hooks()).ev(d_, {})
+            for p, v in zip(own, args):
+                env[p] = v
+            for p, v in (kwargs or {}).items():
+                if p not in own:
+                    raise Unknown(f"unexpected keyword argument {p}")
+                env[p] = v
+            missing = [p for p in own if p not in env]
+            if missing:
+                raise EvalRaised("TypeError", f"missing required argument(s) {missing}")
             ev_ = Evaluator(self._hooks(), max_steps=max(self._budget, 1))
             try:
                 return ev_.run_body(X.body_wo_doc(m.node), env)
